@@ -75,7 +75,61 @@ def okL (tbl : Table) (seedful : Bool) : List Stmt → Bool
   | s :: ss => okS tbl seedful s && okL tbl seedful ss
 end
 
-def okDecl (tbl : Table) (d : FnDecl) : Bool := okS tbl d.hasSeed d.body
+/-! ### restart safety: `get_rng(seed)` on an *integer* seed makes a fresh generator at every call
+
+With `seed = k` every `get_rng(seed)` — the function's own `rng = get_rng(seed)` and the `get_rng` inside a callee
+that is handed `seed=seed` — builds a new `RandomState(k)` at position 0, whereas with `seed = RandomState(k)` they all
+return the one object, which keeps advancing.  The two agree only if every such *restart* happens before the stream
+has been consumed in this frame, and nothing is consumed after the seed parameter was forwarded.  `flow` checks this
+along every path: `fresh` = nothing consumed yet, `used` = consumed through the local generator, `done` = the seed
+parameter was forwarded to a callee (the callee consumed "the" stream from position 0). -/
+
+inductive FState | fresh | used | done
+  deriving DecidableEq, Repr
+
+def FState.rank : FState → Nat
+  | .fresh => 0 | .used => 1 | .done => 2
+
+def FState.join (a b : FState) : FState := if a.rank ≤ b.rank then b else a
+def FState.le (a b : FState) : Bool := a.rank ≤ b.rank
+
+mutual
+def flow (tbl : Table) : Stmt → FState → Option FState
+  | .bindRng, q => if q = .fresh then some .fresh else none
+  | .draw _, q => if q = .done then none else some .used
+  | .call f a, q =>
+      match lookup tbl f with
+      | none => none
+      | some d =>
+        if d.hasSeed then
+          (if a = .seedParam then (if q = .fresh then some .done else none)
+           else (if q = .done then none else some .used))
+        else some q
+  | .seq ss, q => flowL tbl ss q
+  | .branch a b, q =>
+      match flow tbl a q, flow tbl b q with
+      | some x, some y => some (x.join y)
+      | _, _ => none
+  | .loop b, q =>
+      match flow tbl b q with
+      | none => none
+      | some q1 =>
+        match flow tbl b (q.join q1) with
+        | none => none
+        | some q2 =>
+          match flow tbl b ((q.join q1).join q2) with
+          | none => none
+          | some q3 => if q3.le ((q.join q1).join q2) then some ((q.join q1).join q2) else none
+def flowL (tbl : Table) : List Stmt → FState → Option FState
+  | [], q => some q
+  | s :: ss, q =>
+      match flow tbl s q with
+      | some q' => flowL tbl ss q'
+      | none => none
+end
+
+def okDecl (tbl : Table) (d : FnDecl) : Bool :=
+  okS tbl d.hasSeed d.body && (!d.hasSeed || (flow tbl d.body .fresh).isSome)
 
 /-- every function of the table is disciplined -/
 def okTable (tbl : Table) : Bool := tbl.all fun p => okDecl tbl p.2
@@ -255,10 +309,45 @@ structure SeedStreams where
 
 def SeedStreams.streams (σ : SeedStreams) (k : Nat) : Streams := ⟨σ.privOf k, σ.np, σ.py, σ.unk⟩
 
+/-- the run of a body whose `seed` is an *integer*: `rng = get_rng(seed)` makes a fresh generator (position 0), a callee
+    that is handed the seed parameter makes its own fresh generator (position 0) and leaves the caller's untouched; a
+    callee that is handed the generator object continues it (that callee's frame is an object frame: `run … .priv`). -/
+def runInt (tbl : Table) (σ : Streams) (ctl : List Nat → Nat → Bool) : Nat → Stmt → St → Option St
+  | 0, _, _ => none
+  | _ + 1, .bindRng, st => some { st with privPos := 0 }
+  | _ + 1, .draw g, st => some (pull σ (srcOf g .priv) st)
+  | n + 1, .call f a, st =>
+      match lookup tbl f with
+      | some d =>
+        if d.hasSeed && a == .seedParam then
+          match runInt tbl σ ctl n d.body { st with privPos := 0 } with
+          | some st' => some { st' with privPos := st.privPos }
+          | none => none
+        else run tbl σ ctl n (calleeLocal d.hasSeed a .priv) d.body st
+      | none => some (pull σ .unk st)
+  | _ + 1, .seq [], st => some st
+  | n + 1, .seq (s :: ss), st =>
+      match runInt tbl σ ctl n s st with
+      | some st' => runInt tbl σ ctl n (.seq ss) st'
+      | none => none
+  | n + 1, .branch a b, st =>
+      if ctl st.hist st.steps then runInt tbl σ ctl n a (tick st) else runInt tbl σ ctl n b (tick st)
+  | n + 1, .loop b, st =>
+      if ctl st.hist st.steps then
+        match runInt tbl σ ctl n b (tick st) with
+        | some st' => runInt tbl σ ctl n (.loop b) st'
+        | none => none
+      else some (tick st)
+
+/-- run for a caller-supplied seed value: `None` / `np.random` → unseeded frame; a `RandomState` built from `k` that made
+    `pos` draws → object frame at position `pos` of stream `k` (what `getRng` returns, and returns again at every call);
+    an int `k` → `runInt` on stream `k` (`getRng (.int k) = .stream k 0` at *every* `get_rng` call) -/
 def runSeed (tbl : Table) (σ : SeedStreams) (ctl : List Nat → Nat → Bool) (n : Nat) (s : SeedVal) (body : Stmt)
     (st : St) : Option St :=
-  match getRng s with
-  | .global => run tbl (σ.streams 0) ctl n .glob body st
-  | .stream k pos => run tbl (σ.streams k) ctl n .priv body { st with privPos := pos }
+  match s with
+  | .none => run tbl (σ.streams 0) ctl n .glob body st
+  | .npRandom => run tbl (σ.streams 0) ctl n .glob body st
+  | .randomState k pos => run tbl (σ.streams k) ctl n .priv body { st with privPos := pos }
+  | .int k => runInt tbl (σ.streams k) ctl n body { st with privPos := 0 }
 
 end Bct.RngIR
